@@ -3,10 +3,10 @@ CONSTANTS
   Bug_ShiftNonAtomic = FALSE
   Bug_PushIgnoresFrozen = FALSE
   Bug_PositionFreeUnderflow = FALSE
-  L = "en"
-  RLow = {0, 1, 2, 7, 10, 11, 13, 19, 20, 21, 40, 80, 99, 100, 101, 110, 119, 200, 500, 999}
-  RHigh = {0, 1, 2, 21, 100, 999}
-  MaxZeros = 2
+  L = "fr"
+  RLow = {0, 1, 7, 10, 13, 20, 21, 99, 100, 101, 110, 999}
+  RHigh = {0, 1, 21, 100}
+  MaxZeros = 1
 INVARIANT NeverSplit
 INVARIANT RoundTrip
 CHECK_DEADLOCK FALSE
